@@ -104,8 +104,8 @@ def diagnose(W):
     if W.closed_at is not None:
         # the same for a worker that died (in a task) around/after close(): it is not replaced either, and jobs
         # still queued for it are never run
-        died = [w for w in W.workers.values() if w['proc'].dead and w['proc'].status not in (('exit', 0),
-                                                                                              ('exit', EX_RECYCLE))
+        clean = (('exit', 0), ('exit', EX_RECYCLE)) if pc.get('maxtasksperchild') else (('exit', 0),)
+        died = [w for w in W.workers.values() if w['proc'].dead and w['proc'].status not in clean
                 and (w['proc'].death_time is None or w['proc'].death_time >= W.closed_at[1] - 0.85)
                 and not any(tc['t0'][0] <= (w['proc'].death_step or 0) for tc in W.term_calls)]
         live_n = W.marks.get('live_before_terminate', len(live))
